@@ -4,6 +4,8 @@
 #include <stdint.h>
 #include <stddef.h>
 #include <string.h>
+#include <time.h>
+#include <sys/uio.h>
 #define VF_SITE(n) (n)
 #define VF_EXPECT(x, v) (x)
 static inline int vf_cas_failure_order(int o) { return o == 4 ? 2 : (o == 3 ? 0 : o); }
@@ -20,4 +22,11 @@ static inline int vf_clz(unsigned x) { return x == 0 ? 32 : vf_clzll(x) - 32; }
 void *vf_operator_new(size_t size, size_t align);
 void vf_operator_delete(void *p, size_t size);
 void vf_fence(int order, int site);
+/* absl::Duration modelled as a signed 64-bit nanosecond count (trusted model; infinite durations are not modelled) */
+long vf_dur_from_timespec(struct timespec ts);
+struct timespec vf_dur_to_timespec(long d);
+static inline long vf_dur_ns(long ns) { return ns; }
+static inline long vf_dur_to_ns(long d) { return d; }
+long vf_now_ns(void);
+int *vf_errno_location(void);
 #endif
